@@ -89,8 +89,10 @@ def check_case(case):
         out = []
         calls = 0
         vals = []
-        for name, pat in presentations(*comp, full=case["full"]):
-            seq = R.spell_rotating(pat, case.get("k", 0))
+        for pi, (name, pat) in enumerate(presentations(*comp, full=case["full"])):
+            # a different spelling per presentation: same composition, different residue multisets, so a permutant
+            # remembered from another object cannot pass as a rearrangement of this one
+            seq = R.spell_base(pat) if pi == 2 else R.spell_rotating(pat, case.get("k", 0) + 3 * pi)
             v, c, m = check_seq(seq, comp, True, dict(case, presentation=name, seq=seq))
             out += v
             calls += c
